@@ -569,13 +569,24 @@ struct HModel {
   uni: u8,
   /// longest batch enumerated by `actions` (batch ids do not depend on it)
   max_len: u8,
+  /// canonical-status credentials per service and probe index (built once)
+  creds: Vec<Vec<(u32, Credential)>>,
   col: Arc<Collector>,
   /// fingerprints whose per-state checks (validation, dangling queries) have been done
   seen: Mutex<HashSet<String>>,
 }
 impl HModel {
   fn new(kind: u8, init: u8, uni: u8, max_len: u8, col: Arc<Collector>) -> HModel {
-    HModel { kind, init, uni, max_len, col, seen: Mutex::new(HashSet::new()) }
+    let did = if kind == 0 { CORE_DID } else { IOTA_DID };
+    let creds = (0..2)
+      .map(|k| {
+        probes_of(uni)
+          .into_iter()
+          .map(|i| (i, credential(did, Some(RevocationBitmapStatus::new(svc_url(did, SVC[k]), i).into()))))
+          .collect()
+      })
+      .collect();
+    HModel { kind, init, uni, max_len, creds, col, seen: Mutex::new(HashSet::new()) }
   }
   fn case(&self, hist: &[(u8, bool, u8)]) -> Case {
     Case::Hist { kind: self.kind, init: self.init, uni: self.uni, ops: hist.to_vec() }
@@ -642,14 +653,11 @@ impl HModel {
   /// (c), every step: `check_status` (Strict) of a credential whose canonical status entry points at each probe
   /// index of each service reports `Revoked` iff the model holds the index.
   fn validate_step(&self, s: &HState, case: &Case) {
-    let did = s.doc.did();
     for k in 0..2 {
-      for i in probes_of(self.uni) {
-        let member = s.model[k].contains(&i);
-        let st: Status = RevocationBitmapStatus::new(svc_url(did, SVC[k]), i).into();
-        let cred = credential(did, Some(st));
+      for (i, cred) in &self.creds[k] {
+        let member = s.model[k].contains(i);
         self.col.eval1();
-        match guard(|| s.doc.check_status(&cred, StatusCheck::Strict)) {
+        match guard(|| s.doc.check_status(cred, StatusCheck::Strict)) {
           Err(p) => self.col.violation(&format!("check_status|{}", p.key()), &p.msg, case),
           Ok(r) => {
             let got = res_label(&r);
